@@ -31,6 +31,11 @@ def expect_async(expecter, timeout=None):
         return (yield from asyncio.wait_for(pw.fut, timeout))
     except asyncio.TimeoutError as e:
         transport.pause_reading()
+        # Text that arrived when the time was already up (with timeout=0:
+        # whatever was readable) has been stored but not searched yet.
+        idx = expecter.existing_data()
+        if idx is not None:
+            return idx
         return expecter.timeout(e)
 
 
